@@ -202,3 +202,58 @@ pub proof fn lemma_10_78_gt_2_256()
 {
     assert(p10(78) > p256(32)) by (compute);
 }
+
+// ---------------- hexadecimal digit strings ----------------
+pub open spec fn is_hex(c: char) -> bool { ('0' <= c && c <= '9') || ('a' <= c && c <= 'f') || ('A' <= c && c <= 'F') }
+pub open spec fn hval(c: char) -> nat {
+    if '0' <= c && c <= '9' { (c as nat - '0' as nat) as nat }
+    else if 'a' <= c && c <= 'f' { (c as nat - 'a' as nat + 10) as nat }
+    else { (c as nat - 'A' as nat + 10) as nat }
+}
+pub open spec fn all_hex(s: Seq<char>) -> bool { forall|i: int| 0 <= i < s.len() ==> is_hex(#[trigger] s[i]) }
+/// mathematical value of a hex digit string (most significant first)
+pub open spec fn hex_val(s: Seq<char>) -> nat decreases s.len() {
+    if s.len() == 0 { 0 } else { hex_val(s.drop_last()) * 16 + hval(s.last()) }
+}
+/// the bytes a hex string of even length denotes, in order
+pub open spec fn hex_bytes(s: Seq<char>) -> Seq<u8> {
+    Seq::new((s.len() / 2) as nat, |i: int| (hval(s[2 * i]) * 16 + hval(s[2 * i + 1])) as u8)
+}
+
+pub proof fn lemma_hval_bound(c: char) requires is_hex(c) ensures hval(c) < 16 {}
+
+/// the big-endian value of the bytes of a hex string is the value of the string
+pub proof fn lemma_hex_bytes_val(s: Seq<char>)
+    requires s.len() % 2 == 0, all_hex(s)
+    ensures be_val(hex_bytes(s)) == hex_val(s)
+    decreases s.len()
+{
+    if s.len() == 0 {
+        assert(hex_bytes(s) =~= Seq::<u8>::empty());
+    } else {
+        let t = s.drop_last().drop_last();
+        assert(t.len() == s.len() - 2);
+        assert(all_hex(t)) by { assert forall|i: int| 0 <= i < t.len() implies is_hex(#[trigger] t[i]) by { assert(t[i] == s[i]); } }
+        lemma_hex_bytes_val(t);
+        let n = (s.len() / 2) as int;
+        let hi = s[s.len() - 2]; let lo = s[s.len() - 1];
+        assert(is_hex(hi) && is_hex(lo));
+        lemma_hval_bound(hi); lemma_hval_bound(lo);
+        let b = (hval(hi) * 16 + hval(lo)) as u8;
+        assert(hex_bytes(s) =~= hex_bytes(t).push(b)) by {
+            assert(hex_bytes(s).len() == n);
+            assert forall|i: int| 0 <= i < n implies hex_bytes(s)[i] == hex_bytes(t).push(b)[i] by {
+                if i < n - 1 { assert(t[2 * i] == s[2 * i]); assert(t[2 * i + 1] == s[2 * i + 1]); }
+            }
+        }
+        lemma_be_push(hex_bytes(t), b);
+        let s1 = s.drop_last();
+        assert(s1.last() == hi);
+        assert(s1.drop_last() =~= t);
+        assert(s.last() == lo);
+        assert(hex_val(s1) == hex_val(t) * 16 + hval(hi));
+        assert(hex_val(s) == hex_val(s1) * 16 + hval(lo));
+        assert(hex_val(s) == (hex_val(t) * 16 + hval(hi)) * 16 + hval(lo));
+        assert(b as nat == hval(hi) * 16 + hval(lo));
+    }
+}
